@@ -36,6 +36,7 @@ import (
 	"context"
 	"errors"
 	"fmt"
+	"os"
 	"sort"
 	"strings"
 	"sync"
@@ -82,7 +83,19 @@ const (
 var c41TypeNames = [...]string{"gcounter", "pncounter", "orset", "flag", "lww", "mv"}
 var c41KeyIDs = [...]string{"k0", "k1"}
 
-// fingerprint of the one defect found on the unchanged tree (see FINDINGS.md)
+// Fingerprint of the one defect found on the unchanged tree (F-C41-1).
+//
+// What fails: a replica that holds a tombstone for k answers Get{Key: k, ReadFrom:
+// Majority|All} with the value a peer still holds AND writes it back into its own store
+// (actor/replicator.go handleGet: `r.store[keyID] = merged` after coordinatedRead, the one
+// writer of r.store without a tombstone check). Every later local Get(k) there returns the
+// deleted key, although the tombstone is active.
+// Minimal case (2 replicas, GCounter): r1 Update(k0); r0 Delete(k0); r0 Get(k0, Majority,
+// view=[r1]) -> *crdt.GCounter instead of nil, r0.store[k0] set.
+// Proposed fix: ../proposed-fix-coordinated-get.diff (answer nil for a tombstoned key at
+// the top of handleGet); with it and the finding not listed the check is silent.
+// While the fingerprint is listed as known, a coordinated Get at a tombstoned replica whose
+// listed peer still holds the key is downgraded to a local Get; everything else is judged.
 const c41FPCoordRead = "tombstoned-key-resurrected-by-coordinated-get"
 
 type c41Step struct {
@@ -1020,7 +1033,12 @@ func c41Exec(x *vfkit.X, c c41Case) {
 		}
 	}
 	// the tombstones themselves must still be there (TTL = 1 h): a replica that lost one
-	// would accept the next delta
+	// would accept the next delta. VF_C41_BEHAVIOURAL_ONLY=1 switches this look at the
+	// tombstone map off (used once per mutant to show that the Get/store oracle alone
+	// catches it too; never set by the driver).
+	if os.Getenv("VF_C41_BEHAVIOURAL_ONLY") == "1" {
+		return
+	}
 	for i := 0; i < c.N; i++ {
 		for k := range r.keys {
 			if r.tomb[i][k] {
